@@ -48,6 +48,11 @@ func (k *kase) op(line string) string {
 	out := hk.Guard(func() string { return k.e.Step(ws) })
 	k.r.Op(line, out)
 	if strings.HasPrefix(out, "broken") || out == "panic" || out == "hang" || strings.HasPrefix(out, "timeout") {
+		if strings.HasPrefix(out, "timeout") {
+			// the watchdog of `settle`: the real syncLoop left a pending blob uncopied for more than two poll intervals
+			k.r.Fail("syncloop-stalled-with-pending-blob", "op "+line+" -> "+out, "needCopy drained (eventual delivery)", out, k.r.CaseOps())
+			return out
+		}
 		k.r.Fail("harness-"+strings.SplitN(out, ":", 2)[0], "op "+line+" -> "+out, "an answer", out, k.r.CaseOps())
 		return out
 	}
@@ -272,40 +277,46 @@ func genWitnesses(r *hk.Run) {
 	script(r, "witness-F2-crash-in-upload", []string{"upbegin 1 ok pre"})
 }
 
+// primaries: the blob the matrices are about – the empty blob, the 1-byte blob, an ordinary one
+var primaries = []string{"2", "0", "1"}
+
 func genFaultMatrix(r *hk.Run) {
-	for _, f := range allFaults {
-		for _, dq := range allDelFaults {
-			for _, mode := range []string{"atomic", "pre", "post"} {
-				for _, mid := range []string{"", "up 1 ok", "up 1 qseterr", "restart", "up 2 ok"} {
-					if mode == "atomic" && mid != "" && mid != "restart" {
-						continue
-					}
-					if strings.Contains(dq, ":") && (f != "ok" || mid != "") {
-						continue // the kinds of queue.Delete errors only matter when the deletion is reached
-					}
-					k := begin(r, "fault-matrix "+f+" "+dq+" "+mode+" ["+mid+"]")
-					k.op("up 1 ok")
-					k.op("up 3 ok")
-					if mode == "atomic" {
-						k.op(fmt.Sprintf("copy 1 %s %s", f, dq))
-						if mid != "" {
-							k.op(mid)
+	for _, p := range primaries {
+		P := func(s string) string { return strings.ReplaceAll(s, "#", p) }
+		for _, f := range allFaults {
+			for _, dq := range allDelFaults {
+				for _, mode := range []string{"atomic", "pre", "post"} {
+					for _, mid := range []string{"", "up # ok", "up # qseterr", "restart", "up 10 ok"} {
+						if mode == "atomic" && mid != "" && mid != "restart" {
+							continue
 						}
-					} else {
-						out := k.op(fmt.Sprintf("cpbegin 1 %s %s %s", f, dq, mode))
-						k.op("dump")
-						if mid != "" {
-							k.op(mid)
+						if strings.Contains(dq, ":") && (f != "ok" || mid != "") {
+							continue // the kinds of queue.Delete errors only matter when the deletion is reached
+						}
+						k := begin(r, "fault-matrix blob "+p+" "+f+" "+dq+" "+mode+" ["+P(mid)+"]")
+						k.op(P("up # ok"))
+						k.op("up 3 ok")
+						if mode == "atomic" {
+							k.op(P(fmt.Sprintf("copy # %s %s", f, dq)))
+							if mid != "" {
+								k.op(P(mid))
+							}
+						} else {
+							out := k.op(P(fmt.Sprintf("cpbegin # %s %s %s", f, dq, mode)))
 							k.op("dump")
+							if mid != "" {
+								k.op(P(mid))
+								k.op("dump")
+							}
+							if out == "parked" {
+								k.op(P("cpend #"))
+							}
 						}
-						if out == "parked" {
-							k.op("cpend 1")
-						}
+						k.op("dump")
+						k.op(P("copy # ok ok"))
+						k.op("dump")
+						k.finish()
 					}
-					k.op("dump")
-					k.op("copy 1 ok ok")
-					k.op("dump")
-					k.finish()
 				}
 			}
 		}
@@ -313,32 +324,104 @@ func genFaultMatrix(r *hk.Run) {
 }
 
 func genUploadMatrix(r *hk.Run) {
-	mids := []string{"", "up 1 ok", "up 1 qseterr", "copy 1 ok ok", "copy 1 desterr ok", "restart", "drain ok -", "up 2 ok"}
-	for _, pre := range []string{"", "up 1 ok", "up 1 qseterr"} {
-		for _, q := range allUpFaults {
-			for _, pos := range poss {
-				for _, mid := range mids {
-					if strings.Contains(q, ":") && mid != "" && mid != "restart" && mid != "up 1 ok" {
-						continue
-					}
-					k := begin(r, "upload-matrix ["+pre+"] "+q+" "+pos+" ["+mid+"]")
-					if pre != "" {
-						k.op(pre)
-					}
-					out := k.op(fmt.Sprintf("upbegin 1 %s %s", q, pos))
-					k.op("dump")
-					if mid != "" {
-						k.op(mid)
+	mids := []string{"", "up # ok", "up # qseterr", "copy # ok ok", "copy # desterr ok", "restart", "drain ok -", "up 10 ok"}
+	for _, p := range primaries {
+		P := func(s string) string { return strings.ReplaceAll(s, "#", p) }
+		for _, pre := range []string{"", "up # ok", "up # qseterr"} {
+			for _, q := range allUpFaults {
+				for _, pos := range poss {
+					for _, mid := range mids {
+						if strings.Contains(q, ":") && mid != "" && mid != "restart" && mid != "up # ok" {
+							continue
+						}
+						k := begin(r, "upload-matrix blob "+p+" ["+P(pre)+"] "+q+" "+pos+" ["+P(mid)+"]")
+						if pre != "" {
+							k.op(P(pre))
+						}
+						out := k.op(P(fmt.Sprintf("upbegin # %s %s", q, pos)))
 						k.op("dump")
+						if mid != "" {
+							k.op(P(mid))
+							k.op("dump")
+						}
+						if out == "parked" {
+							k.op(P("upend #"))
+						}
+						k.op("dump")
+						k.finish()
 					}
-					if out == "parked" {
-						k.op("upend 1")
-					}
-					k.op("dump")
-					k.finish()
 				}
 			}
 		}
+	}
+}
+
+// A zero-length (id 0) or one-byte (id 1) blob as the ONLY pending item: as the very first upload,
+// uploaded alone after everything else was delivered, as the only row in the queue at a restart, after
+// a failed first attempt – through the step-driven runSync and through the real syncLoop (enqueue
+// wake-up, the 5 s poll, readQueueToMemory at restart), each under the eventual-delivery oracle.
+func genLonePending(r *hk.Run) {
+	for _, z := range []string{"0", "1"} {
+		Z := func(s string) string { return strings.ReplaceAll(s, "#", z) }
+		for _, sc := range [][]string{
+			{"up # ok", "drain ok -", "dump"},
+			{"up # ok", "dump"},
+			{"up 2 ok", "up 3 ok", "drain ok -", "dump", "up # ok", "drain ok -", "dump"},
+			{"up 2 ok", "copy 2 ok ok", "up # ok", "dump"},
+			{"up # ok", "restart", "drain ok -", "dump"},
+			{"up 2 ok", "up # ok", "copy 2 ok ok", "restart", "dump", "drain ok -", "dump"},
+			{"up # ok", "copy # desterr ok", "drain ok -", "dump"},
+			{"up # ok", "drain desterr:enoent #", "drain ok -", "dump"},
+			{"up # ok", "copy # ok qdelerr", "dump", "restart", "drain ok -", "dump"},
+			{"up # qseterr", "drain ok -", "dump"},
+			{"up # ok", "drain ok -", "up # ok", "drain ok -", "dump"},
+			{"up 0 ok", "up 1 ok", "drain ok -", "dump"},
+		} {
+			k := begin(r, "lone-pending blob "+z)
+			for _, o := range sc {
+				k.op(Z(o))
+			}
+			r.Hit("mech:lone-pending-boundary-blob:" + z)
+			k.finish()
+		}
+		for _, sc := range [][]string{
+			{"up # ok", "settle"},
+			{"up 2 ok", "up 3 ok", "settle", "up # ok", "settle"},
+			{"up # ok", "settle", "restart", "up # ok", "settle"},
+			{"up 2 ok", "up # ok", "settle", "restart", "settle"},
+			{"up # ok", "restart", "settle"}, // (almost always) the only row in the queue at the restart
+			{"up # ok", "restart", "restart", "settle", "up 3 ok", "settle"},
+		} {
+			k := begin(r, "lone-pending-live blob "+z)
+			k.op("live")
+			k.live = true
+			for _, o := range sc {
+				k.op(Z(o))
+			}
+			r.Hit("mech:lone-pending-boundary-blob-live:" + z)
+			k.finish()
+		}
+	}
+}
+
+// boundary sizes: 32768 (io.Copy's buffer), 32769, 65536, 511, MaxBlobSize-1, MaxBlobSize
+func genBoundarySizes(r *hk.Run, big bool) {
+	ids := []int{4, 5, 6, 7}
+	if big {
+		ids = append(ids, 8, 9)
+	}
+	for _, i := range ids {
+		k := begin(r, fmt.Sprintf("boundary-size blob %d (%d bytes)", i, len(content(i))))
+		k.op(fmt.Sprintf("up %d ok", i))
+		k.op(fmt.Sprintf("copy %d corrupt ok", i))
+		k.op(fmt.Sprintf("copy %d shortread:ueof ok", i))
+		k.op(fmt.Sprintf("copy %d fetchsize ok", i))
+		k.op(fmt.Sprintf("copy %d destsize ok", i))
+		k.op("restart")
+		k.op("drain ok -")
+		k.op("dump")
+		r.Hit(fmt.Sprintf("mech:boundary-size:%d", len(content(i))))
+		k.finish()
 	}
 }
 
@@ -568,18 +651,22 @@ func genMalformed(r *hk.Run) {
 
 // Run is the generator + oracle of C19.
 func Run(r *hk.Run) {
-	r.Res.Rule = "cases: (a) witnesses of F-C19-1/2; (b) copy-fault matrix {all 32 fault words: ok, fetchsize, corrupt, destsize, shortread:eof0 and fetcherr/shortread/desterr x 9 error kinds (generic, os.ErrNotExist, PathError{ENOENT}, context.Canceled, DeadlineExceeded, io.EOF, io.ErrUnexpectedEOF, blobserver.ErrCorruptBlob, sorted.ErrNotFound)} x {queue.Delete ok/err} x {atomic, parked before/after queue.Delete} x {nothing, duplicate upload, failing upload, restart, other upload in between}; (c) upload matrix {nothing, acked, failed earlier upload} x {ok, queue.Set error, source error} x {parked before/after queue.Set} x 8 interleaved ops; (d) every op sequence of depth D (4 quick, 5 thorough) over a 16-op alphabet; (e) random walks over 4 blobs with all ops; (f) random scripts cut (crash + restart) after every prefix; (g) the real syncLoop via blobserver.CreateHandler(\"sync\") with restarts; (h) malformed ops. Every case ends with restart + failure-free drain and the liveness oracle; the safety oracle runs after every op. distinct = distinct op sequences; non-trivial = at least one acknowledged upload and one copy/drain/restart"
+	r.Res.Rule = "cases: (a) witnesses of F-C19-1/2; (b) copy-fault matrix {all 32 fault words: ok, fetchsize, corrupt, destsize, shortread:eof0 and fetcherr/shortread/desterr x 9 error kinds (generic, os.ErrNotExist, PathError{ENOENT}, context.Canceled, DeadlineExceeded, io.EOF, io.ErrUnexpectedEOF, blobserver.ErrCorruptBlob, sorted.ErrNotFound)} x {queue.Delete ok/err} x {atomic, parked before/after queue.Delete} x {nothing, duplicate upload, failing upload, restart, other upload in between}; (c) upload matrix {nothing, acked, failed earlier upload} x {ok, queue.Set error, source error} x {parked before/after queue.Set} x 8 interleaved ops; (d) every op sequence of depth D (4 quick, 5 thorough) over a 16-op alphabet; (e) random walks over 4 blobs (ids 0..3: empty, 1 byte, two ordinary) and over 8 blobs (adding 32768/32769/65536/511 bytes) with all ops; (f) random scripts cut (crash + restart) after every prefix; (i) a zero-length / one-byte blob as the only pending item (first upload, alone after everything was delivered, only row at restart, after a failed attempt) in step and live mode, boundary sizes 511/32768/32769/65536/MaxBlobSize-1/MaxBlobSize, and all matrices for the empty, the 1-byte and an ordinary blob; (g) the real syncLoop via blobserver.CreateHandler(\"sync\") with restarts; (h) malformed ops. Every case ends with restart + failure-free drain and the liveness oracle; the safety oracle runs after every op. distinct = distinct op sequences; non-trivial = at least one acknowledged upload and one copy/drain/restart"
 	genWitnesses(r)
+	genLonePending(r)
+	genBoundarySizes(r, true)
 	genFaultMatrix(r)
 	genUploadMatrix(r)
 	if r.Thorough() {
 		genExhaustive(r, 5)
 		genRandom(r, 40000, 80, 4)
+		genRandom(r, 4000, 80, 8)
 		genCrashEverywhere(r, 400, 40)
 		genLive(r, 60)
 	} else {
 		genExhaustive(r, 4)
 		genRandom(r, 3000, 50, 4)
+		genRandom(r, 300, 50, 8)
 		genCrashEverywhere(r, 60, 30)
 		genLive(r, 8)
 	}
